@@ -240,6 +240,16 @@ def near_misses(ctx):
     out.append(("reduction-permuted-output",
                 mk(Reduce(v("_in0")[v("_r0"), v("_1"), v("_0")], SumReductionOperation(),
                           constantdict({"_r0": (0, 2)})), (3, 3), {"_in0": ph((2, 3, 3))})))
+    sq = ph((3, 3))
+    out.append(("reduction-trace-repeated-variable",
+                mk(Reduce(v("_in0")[v("_r0"), v("_r0")], SumReductionOperation(), constantdict({"_r0": (0, 3)})),
+                   (), {"_in0": sq})))
+    out.append(("reduction-variable-not-in-subscript",
+                mk(Reduce(v("_in0")[v("_0"), v("_r0")], SumReductionOperation(),
+                          constantdict({"_r0": (0, 3), "_r1": (0, 7)})), (3,), {"_in0": sq})))
+    out.append(("reduction-output-axis-not-consumed",
+                mk(Reduce(v("_in0")[v("_0"), v("_r0")], SumReductionOperation(), constantdict({"_r0": (0, 3)})),
+                   (3, 2), {"_in0": sq})))
     out.append(("reduction-of-expression",
                 mk(Reduce(v("_in0")[v("_r0"), v("_0")] * 2, SumReductionOperation(), constantdict({"_r0": (0, 4)})),
                    (3,), {"_in0": d})))
@@ -252,6 +262,27 @@ def near_misses(ctx):
     out.append(("call-with-offset-argument",
                 mk(prim.Call(v("pytato.c99.sin"), (v("_in0")[(v("_0") + 1) % 3, v("_1")],)), (3, 3), {"_in0": a})))
     return out
+
+
+def model_query(il):
+    """ptdriver query asking the Lean model of the cascade to classify this index lambda"""
+    from .. import ser
+    try:
+        binds = " ".join(f"({ser.name(k)} {ser.shape(v.shape)})" for k, v in sorted(il.bindings.items()))
+        return f"(raise {ser.shape(il.shape)} {ser.sexpr(il.expr)} ({binds}))"
+    except Exception:   # noqa: BLE001 (symbolic shapes, unserialisable constants)
+        return None
+
+
+def hlo_class_of_model(ans: str) -> str:
+    if not ans.startswith("ok "):
+        return "model-error"
+    a = ans[3:].strip()
+    if a == "unknown":
+        return "unknown"
+    head = a[1:].split()[0].rstrip(")")
+    return {"full": "FullOp", "binary": "BinaryOp", "call": "C99CallOp", "zeros_like": "ZerosLikeOp",
+            "where": "WhereOp", "broadcast": "BroadcastOp", "logical_not": "LogicalNotOp", "reduce": "ReduceOp"}.get(head, head)
 
 
 def check_one(ctx, label, il, inp, must_recognise):
@@ -305,6 +336,7 @@ def run(ctx: common.Ctx):
         ctx.coverage["lean"] = "C19 theorem file not yet present in this revision"
     rng = np.random.default_rng(ctx.seed + 19)
     cases = dis = 0
+    mq: list = []
     classes: dict[str, int] = {}
     for label, e, must in api_cases(ctx):
         cases += 1
@@ -319,6 +351,9 @@ def run(ctx: common.Ctx):
         d, cls = check_one(ctx, label, e, inp, must)
         dis += d
         classes[cls] = classes.get(cls, 0) + 1
+        q = model_query(e)
+        if q is not None and cls != "exception":
+            mq.append((label, cls, q))
         if cases % 400 == 0:
             ctx.sample({"batch": "api", "label": label, "class": cls})
     ctx.note_batch("api-built-index-lambdas", cases, dis, exhaustive=False, classification=classes)
@@ -330,8 +365,23 @@ def run(ctx: common.Ctx):
         d, cls = check_one(ctx, "near-miss:" + label, il, inp, False)
         dis += d
         classes[label] = cls
+        q = model_query(il)
+        if q is not None and cls != "exception":
+            mq.append(("near-miss:" + label, cls, q))
         ctx.sample({"batch": "near-miss", "label": label, "class": cls})
     ctx.note_batch("hand-built-near-misses", cases, dis, exhaustive=False, classification=classes)
+    # the Lean model of the cascade (object of raise_sound) must classify like the real raiser
+    ans = common.driver_query_parallel([q for _, _, q in mq])
+    mdis = 0
+    for (label, cls, q), a in zip(mq, ans):
+        m = hlo_class_of_model(a)
+        if m != cls:
+            # documented divergence: the model matches SUB only for the integer literal -1 (what the API emits)
+            if cls == "BinaryOp" and m == "unknown" and "scalar-minus-array-as-sum" in label:
+                continue
+            mdis += 1
+            ctx.broken.append(f"correspondence:raise-model-vs-real:{label}:real={cls}:model={m}")
+    ctx.note_batch("lean-raise-model-vs-real-classification", len(mq), mdis, exhaustive=False)
     ctx.broken = sorted(set(ctx.broken))[:50]
 
 
